@@ -75,9 +75,6 @@ func (t *Term) Key() [2]uint64 {
 	for i := 0; i < len(t.Name); i++ {
 		mix(uint64(t.Name[i]) + 131)
 	}
-	if t.Op == "var" {
-		mix(uint64(t.ID))
-	}
 	for _, a := range t.Args {
 		k := a.Key()
 		mix(k[0])
@@ -863,3 +860,91 @@ func BVorSame(t *Term, c uint64) *Term {
 }
 
 var _ = bits.Len64
+
+// Show renders a term as an s-expression (diagnostics only; shared nodes are repeated).
+func Show(t *Term) string {
+	if t.IsConst() {
+		switch t.S.K {
+		case KBool:
+			if t.C == 1 {
+				return "true"
+			}
+			return "false"
+		case KBV:
+			return fmt.Sprint(t.C)
+		}
+		return fmt.Sprint(t.Float())
+	}
+	if t.Op == "var" {
+		return t.Name
+	}
+	parts := []string{t.Op}
+	if t.Op == "app" {
+		parts = []string{t.Name}
+	}
+	for _, a := range t.Args {
+		parts = append(parts, Show(a))
+	}
+	return "(" + strings.Join(parts, " ") + ")"
+}
+
+// Rebuild applies t's operator to new arguments (through the folding constructors).
+func Rebuild(t *Term, a []*Term) *Term {
+	switch t.Op {
+	case "not":
+		return Not(a[0])
+	case "and":
+		return And(a[0], a[1])
+	case "or":
+		return Or(a[0], a[1])
+	case "ite":
+		return Ite(a[0], a[1], a[2])
+	case "=":
+		return Eq(a[0], a[1])
+	case "bvadd":
+		return Add(a[0], a[1])
+	case "bvsub":
+		return Sub(a[0], a[1])
+	case "bvmul":
+		return Mul(a[0], a[1])
+	case "bvand":
+		return BAnd(a[0], a[1])
+	case "bvor":
+		return BOr(a[0], a[1])
+	case "bvxor":
+		return BXor(a[0], a[1])
+	case "bvudiv":
+		return UDiv(a[0], a[1])
+	case "bvurem":
+		return URem(a[0], a[1])
+	case "bvsdiv":
+		return SDiv(a[0], a[1])
+	case "bvsrem":
+		return SRem(a[0], a[1])
+	case "bvshl":
+		return Shl(a[0], a[1])
+	case "bvlshr":
+		return LShr(a[0], a[1])
+	case "bvashr":
+		return AShr(a[0], a[1])
+	case "bvneg":
+		return Neg(a[0])
+	case "bvnot":
+		return BNot(a[0])
+	case "bvult":
+		return ULt(a[0], a[1])
+	case "bvule":
+		return ULe(a[0], a[1])
+	case "bvslt":
+		return SLt(a[0], a[1])
+	case "bvsle":
+		return SLe(a[0], a[1])
+	case "extract", "zero_extend":
+		return Resize(a[0], t.S.W, false)
+	case "sign_extend":
+		return Resize(a[0], t.S.W, true)
+	case "concat":
+		return Concat(a[0], a[1])
+	}
+	panic("smt.Rebuild: unsupported op " + t.Op)
+}
